@@ -121,8 +121,10 @@ fn view(w: &WdtFile) -> String {
     }
     let mut main = Vec::with_capacity(32768);
     for y in 0..64 { for x in 0..64 { let e = w.main.get(x, y).copied().unwrap_or_default(); main.extend_from_slice(&e.flags.to_le_bytes()); main.extend_from_slice(&e.area_id.to_le_bytes()); } }
-    let maid = w.maid.as_ref().map(|m| { let mut v = vec![]; for s in 0..m.section_count().min(8) { for y in 0..64 { for x in 0..64 {
-        v.extend_from_slice(&m.get(MaidSection::all()[s], x, y).unwrap_or(0).to_le_bytes()); } } } v });
+    // sections past the eighth have no accessor: they count (zero-filled by the generator), so a reader that drops them shows
+    let maid = w.maid.as_ref().map(|m| { let mut v = vec![]; for s in 0..m.section_count() { for y in 0..64 { for x in 0..64 {
+        let id = if s < 8 { m.get(MaidSection::all()[s], x, y).unwrap_or(0) } else { 0 };
+        v.extend_from_slice(&id.to_le_bytes()); } } } v });
     let mwmo = w.mwmo.as_ref().map(|m| m.filenames.clone());
     let modf = w.modf.as_ref().map(|m| m.entries.iter().flat_map(|e| {
         let mut v = vec![]; v.extend_from_slice(&e.id.to_le_bytes()); v.extend_from_slice(&e.unique_id.to_le_bytes());
@@ -146,9 +148,10 @@ fn gen_abs(rng: &mut Rng, well_formed: bool) -> Abs {
     else if ntiles == 1 { let c = *rng.pick(&[(0usize, 0usize), (63, 0), (0, 63), (63, 63)]); main.push((c.0, c.1, 1, rng.u32())); }
     else { for _ in 0..ntiles { main.push((rng.below(64) as usize, rng.below(64) as usize, rng.u32() & 0xF, rng.u32() & 0xFFFF)); } }
     let maid = if with_maid {
-        let n = if well_formed || rng.chance(1, 2) { 8 } else { rng.range(1, 8) as usize };
+        // the reader derives the section count from the chunk size: any count is a file-id table (later clients have more than 8)
+        let n = if rng.chance(1, 2) { 8 } else if well_formed { rng.range(1, 12) as usize } else { rng.range(1, 8) as usize };
         let k = rng.range(0, 50) as usize;
-        Some((n, (0..k).map(|_| (rng.below(n as u64) as usize, rng.below(64) as usize, rng.below(64) as usize, rng.u32())).collect()))
+        Some((n, (0..k).map(|_| (rng.below(n.min(8) as u64) as usize, rng.below(64) as usize, rng.below(64) as usize, rng.u32())).collect()))
     } else { None };
     let name = |rng: &mut Rng| -> String { match rng.below(4) { 0 => "World\\wmo\\Dungeon\\KL_Karazhan\\Karazhan.wmo".into(), 1 => "a".into(), 2 => "Ünï.wmo".into(), _ => format!("w{}.wmo", rng.below(1000)) } };
     let should_write = wmo_only || ver < 3;
